@@ -599,6 +599,77 @@ example : closes 0 [Tok.start ⟨"urn:ietf:params:xml:ns:xmpp-streams", "host-go
     .stop ⟨"urn:ietf:params:xml:ns:xmpp-streams", "host-gone"⟩, .stop ⟨nsStream, "error"⟩] = some "host-gone" := by
   decide
 
+/-! ### received stream errors that carry an application-specific condition -/
+
+theorem skipElem_append : ∀ (body : List Tok) (d d' : Nat) (rest : List Tok),
+    depthAfter d body = some d' → skipElem d (body ++ rest) = skipElem d' rest := by
+  intro body
+  induction body with
+  | nil => intro d d' rest h; simp [depthAfter] at h; subst h; rfl
+  | cons t ts ih =>
+    intro d d' rest h
+    cases t with
+    | start n as => simp only [depthAfter] at h; simp only [List.cons_append, skipElem]; exact ih _ _ _ h
+    | stop n =>
+      cases d with
+      | zero => simp [depthAfter] at h
+      | succ k => simp only [depthAfter] at h; simp only [List.cons_append, skipElem]; exact ih _ _ _ h
+    | chars c => simp only [depthAfter] at h; simp only [List.cons_append, skipElem]; exact ih _ _ _ h
+    | comment c => simp only [depthAfter] at h; simp only [List.cons_append, skipElem]; exact ih _ _ _ h
+    | procInst a b => simp only [depthAfter] at h; simp only [List.cons_append, skipElem]; exact ih _ _ _ h
+    | directive c => simp only [depthAfter] at h; simp only [List.cons_append, skipElem]; exact ih _ _ _ h
+
+/-- one more child of a stream error is consumed as a whole — whatever it contains, however deep
+— and only a child in the stream-error namespace other than `<text/>` changes the condition:
+an **application-specific condition** (any other namespace) at any position, with any content,
+leaves the condition what the peer's defined condition says -/
+theorem C08_stream_error_child (f : Nat) (cur : String) (n : Name) (as : List Attr) (body rest : List Tok)
+    (hb : depthAfter 0 body = some 0) :
+    seCondF (f + 1) cur (.start n as :: (body ++ .stop n :: rest))
+      = seCondF f (if n.space == nsStreams && n.loc != "text" then n.loc else cur) rest := by
+  simp only [seCondF]
+  rw [skipElem_append body 0 0 _ hb]
+  simp [skipElem]
+
+/-- a defined condition followed by an application-specific condition with arbitrary (balanced)
+content, then the end of the error: the error is the defined condition `c` -/
+theorem C08_stream_error_app_condition (c : String) (hc : c ≠ "text") (as as' : List Attr) (an : Name)
+    (han : an.space ≠ nsStreams) (body rest : List Tok) (hb : depthAfter 0 body = some 0) (en : Name) :
+    seCond ([.start ⟨nsStreams, c⟩ as, .stop ⟨nsStreams, c⟩] ++ (.start an as' :: (body ++ .stop an :: .stop en :: rest)))
+      = some c ∧
+    seCond ((.start an as' :: (body ++ [.stop an])) ++ [.start ⟨nsStreams, c⟩ as, .stop ⟨nsStreams, c⟩] ++ .stop en :: rest)
+      = some c := by
+  have hne : (an.space == nsStreams) = false := by simpa using han
+  have hct : (c != "text") = true := by simpa using hc
+  constructor
+  · unfold seCond
+    simp only [List.cons_append, List.nil_append, List.length_cons, List.length_append]
+    have h1 := C08_stream_error_child (body.length + (rest.length + 1 + 1) + 1 + 1 + 1) "" ⟨nsStreams, c⟩ as [] (.start an as' :: (body ++ .stop an :: .stop en :: rest)) rfl
+    simp only [List.nil_append] at h1
+    rw [show body.length + (rest.length + 1 + 1) + 1 + 1 + 1 + 1 = (body.length + (rest.length + 1 + 1) + 1 + 1 + 1) + 1 from rfl, h1]
+    rw [C08_stream_error_child _ _ an as' body (.stop en :: rest) hb]
+    simp [seCondF, hne, hct]
+  · unfold seCond
+    simp only [List.cons_append, List.nil_append, List.append_assoc, List.length_cons, List.length_append]
+    rw [C08_stream_error_child _ _ an as' body _ hb]
+    simp only [hne, Bool.false_and, Bool.false_eq_true, if_false]
+    have h2 := C08_stream_error_child (body.length + (rest.length + 1 + 1 + 1 + 1)) "" ⟨nsStreams, c⟩ as []
+      (.stop en :: rest) rfl
+    simp only [List.nil_append] at h2
+    rw [h2]
+    show seCondF ((body.length + (rest.length + 1 + 1 + 1)) + 1) _ _ = _
+    simp [seCondF, hct]
+
+example : seCond [Tok.start ⟨nsStreams, "conflict"⟩ [], .stop ⟨nsStreams, "conflict"⟩,
+      .start ⟨"urn:example", "replaced-by-new-login"⟩ [], .stop ⟨"urn:example", "replaced-by-new-login"⟩,
+      .stop ⟨nsStream, "error"⟩] = some "conflict" ∧
+    seCond [Tok.start ⟨"urn:example", "app"⟩ [], .start ⟨"urn:example", "d"⟩ [], .chars "x", .stop ⟨"urn:example", "d"⟩,
+      .stop ⟨"urn:example", "app"⟩, .start ⟨nsStreams, "text"⟩ [], .chars "bye", .stop ⟨nsStreams, "text"⟩,
+      .start ⟨nsStreams, "host-gone"⟩ [], .stop ⟨nsStreams, "host-gone"⟩, .stop ⟨nsStream, "error"⟩] = some "host-gone" ∧
+    seCond [Tok.start ⟨"urn:example", "only"⟩ [], .stop ⟨"urn:example", "only"⟩, .stop ⟨nsStream, "error"⟩] = some "" ∧
+    seCond [Tok.start ⟨nsStreams, "reset"⟩ [], .stop ⟨nsStreams, "reset"⟩, .start ⟨"urn:example", "open"⟩ []] = none := by
+  decide
+
 /-! ### responses to pending local requests -/
 
 /-- **a response handed to a waiting `SendIQ` caller is skipped as a whole**: for a well-formed
